@@ -41,7 +41,8 @@ Record cfg := mkCfg {
   c_since_ep : N;         (* requested epoch (0 = "") *)
   c_jl : bool;            (* PushJoinLeave *)
   c_fix_anchor : bool;
-  c_fix_srvpubs : bool
+  c_fix_srvpubs : bool;
+  c_batch : bool          (* per-channel batching (GetChannelBatchConfig with MaxDelay/MaxSize) *)
 }.
 
 Inductive frame :=
@@ -101,49 +102,58 @@ Record st := mkSt {
   pending : nat;                (* spawned, not yet run insufficient-state goroutines *)
   cleanup : bool;               (* close(): unsubscribe loop still to run *)
   g_pos : N;                    (* ghost: last position installed for the subscription *)
-  log : list frame              (* transport, oldest first *)
+  log : list frame;             (* transport, oldest first *)
+  cw : list frame               (* per-channel writer buffer (batching only) *)
 }.
 
 Definition init : st :=
-  mkSt 1 0 [] 2 [] [] false false false [] false NoCh false SIdle DIdle UIdle 0%nat false 0 [].
+  mkSt 1 0 [] 2 [] [] false false false [] false NoCh false SIdle DIdle UIdle 0%nat false 0 [] [].
 
 (* ---- functional record updates ---- *)
 Definition set_broker (s : st) ep top items fresh glog fl' : st :=
   mkSt ep top items fresh glog fl' (ps_entry s) (ps_insub s) (ps_locked s) (ps_buf s) (hub s) (ch s)
-       (closed s) (pc s) (dl s) (up s) (pending s) (cleanup s) (g_pos s) (log s).
+       (closed s) (pc s) (dl s) (up s) (pending s) (cleanup s) (g_pos s) (log s) (cw s).
 Definition set_fl (s : st) fl' : st :=
   set_broker s (b_ep s) (b_top s) (b_items s) (b_fresh s) (g_log s) fl'.
 Definition set_ps (s : st) e i l b : st :=
   mkSt (b_ep s) (b_top s) (b_items s) (b_fresh s) (g_log s) (fl s) e i l b (hub s) (ch s)
-       (closed s) (pc s) (dl s) (up s) (pending s) (cleanup s) (g_pos s) (log s).
+       (closed s) (pc s) (dl s) (up s) (pending s) (cleanup s) (g_pos s) (log s) (cw s).
 Definition set_hub (s : st) h : st :=
   mkSt (b_ep s) (b_top s) (b_items s) (b_fresh s) (g_log s) (fl s) (ps_entry s) (ps_insub s) (ps_locked s)
-       (ps_buf s) h (ch s) (closed s) (pc s) (dl s) (up s) (pending s) (cleanup s) (g_pos s) (log s).
+       (ps_buf s) h (ch s) (closed s) (pc s) (dl s) (up s) (pending s) (cleanup s) (g_pos s) (log s) (cw s).
 Definition set_ch (s : st) c gp : st :=
   mkSt (b_ep s) (b_top s) (b_items s) (b_fresh s) (g_log s) (fl s) (ps_entry s) (ps_insub s) (ps_locked s)
-       (ps_buf s) (hub s) c (closed s) (pc s) (dl s) (up s) (pending s) (cleanup s) gp (log s).
+       (ps_buf s) (hub s) c (closed s) (pc s) (dl s) (up s) (pending s) (cleanup s) gp (log s) (cw s).
 Definition set_closed (s : st) c cl : st :=
   mkSt (b_ep s) (b_top s) (b_items s) (b_fresh s) (g_log s) (fl s) (ps_entry s) (ps_insub s) (ps_locked s)
-       (ps_buf s) (hub s) (ch s) c (pc s) (dl s) (up s) (pending s) cl (g_pos s) (log s).
+       (ps_buf s) (hub s) (ch s) c (pc s) (dl s) (up s) (pending s) cl (g_pos s) (log s) (cw s).
 Definition set_pc (s : st) p : st :=
   mkSt (b_ep s) (b_top s) (b_items s) (b_fresh s) (g_log s) (fl s) (ps_entry s) (ps_insub s) (ps_locked s)
-       (ps_buf s) (hub s) (ch s) (closed s) p (dl s) (up s) (pending s) (cleanup s) (g_pos s) (log s).
+       (ps_buf s) (hub s) (ch s) (closed s) p (dl s) (up s) (pending s) (cleanup s) (g_pos s) (log s) (cw s).
 Definition set_dl (s : st) d : st :=
   mkSt (b_ep s) (b_top s) (b_items s) (b_fresh s) (g_log s) (fl s) (ps_entry s) (ps_insub s) (ps_locked s)
-       (ps_buf s) (hub s) (ch s) (closed s) (pc s) d (up s) (pending s) (cleanup s) (g_pos s) (log s).
+       (ps_buf s) (hub s) (ch s) (closed s) (pc s) d (up s) (pending s) (cleanup s) (g_pos s) (log s) (cw s).
 Definition set_up (s : st) u : st :=
   mkSt (b_ep s) (b_top s) (b_items s) (b_fresh s) (g_log s) (fl s) (ps_entry s) (ps_insub s) (ps_locked s)
-       (ps_buf s) (hub s) (ch s) (closed s) (pc s) (dl s) u (pending s) (cleanup s) (g_pos s) (log s).
+       (ps_buf s) (hub s) (ch s) (closed s) (pc s) (dl s) u (pending s) (cleanup s) (g_pos s) (log s) (cw s).
 Definition set_pending (s : st) n : st :=
   mkSt (b_ep s) (b_top s) (b_items s) (b_fresh s) (g_log s) (fl s) (ps_entry s) (ps_insub s) (ps_locked s)
-       (ps_buf s) (hub s) (ch s) (closed s) (pc s) (dl s) (up s) n (cleanup s) (g_pos s) (log s).
+       (ps_buf s) (hub s) (ch s) (closed s) (pc s) (dl s) (up s) n (cleanup s) (g_pos s) (log s) (cw s).
 (* enqueue into the connection writer: nothing is written once the writer is closed *)
 Definition emit (s : st) (f : frame) : st :=
   if closed s then s else
   mkSt (b_ep s) (b_top s) (b_items s) (b_fresh s) (g_log s) (fl s) (ps_entry s) (ps_insub s) (ps_locked s)
-       (ps_buf s) (hub s) (ch s) (closed s) (pc s) (dl s) (up s) (pending s) (cleanup s) (g_pos s) (log s ++ [f]).
+       (ps_buf s) (hub s) (ch s) (closed s) (pc s) (dl s) (up s) (pending s) (cleanup s) (g_pos s) (log s ++ [f]) (cw s).
 Fixpoint emits (s : st) (fs : list frame) : st :=
   match fs with [] => s | f :: fs' => emits (emit s f) fs' end.
+Definition set_cw (s : st) (b : list frame) : st :=
+  mkSt (b_ep s) (b_top s) (b_items s) (b_fresh s) (g_log s) (fl s) (ps_entry s) (ps_insub s) (ps_locked s)
+       (ps_buf s) (hub s) (ch s) (closed s) (pc s) (dl s) (up s) (pending s) (cleanup s) (g_pos s) (log s) b.
+(* writeEncodedPushData for a publication / join / leave push of the channel: with a batch
+   config the item goes to the channel's writer (perChannelWriter.Add creates the writer if
+   it does not exist) and reaches the connection queue at a later flush *)
+Definition emit_push (c : cfg) (s : st) (f : frame) : st :=
+  if c_batch c then set_cw s (cw s ++ [f]) else emit s f.
 
 (* ---- broker (broker_memory.go historyHub + memstream.Stream) ---- *)
 Fixpoint lastn {A} (n : nat) (l : list A) : list A :=
@@ -217,6 +227,7 @@ Inductive label :=
   (* delivery thread (one broadcast at a time per channel) *)
   | LDeliver (i : nat) (lag : bool)         (* any token: reordering / delay = choice of i *)
   | LSync | LCheck | LEnqueue
+  | LFlush                                  (* channel writer flush (timer / size) *)
   (* subscribe thread *)
   | LReserve | LStartBuf | LHubAdd | LHistRead | LMerge
   | LWriteReply | LCommit | LSrvPush | LStopBuf
@@ -328,9 +339,14 @@ Definition step (c : cfg) (s : st) (l : label) : option st :=
       end
   | LEnqueue =>
       match dl s with
-      | DPub p _ PEnq => Some (set_dl (emit s (FPub p)) DIdle)
-      | DJL j PEnq => Some (set_dl (emit s (if j then FJoin else FLeave)) DIdle)
+      | DPub p _ PEnq => Some (set_dl (emit_push c s (FPub p)) DIdle)
+      | DJL j PEnq => Some (set_dl (emit_push c s (if j then FJoin else FLeave)) DIdle)
       | _ => None
+      end
+  | LFlush =>
+      match cw s with
+      | [] => None
+      | fs => Some (set_cw (emits s fs) [])
       end
   (* ---------------- subscribe thread ---------------- *)
   | LReserve =>
@@ -410,7 +426,7 @@ Definition step (c : cfg) (s : st) (l : label) : option st :=
       | SFailDisc =>
           match c_var c with
           | VClient => (* writeDisconnectOrErrorFlush -> close(DisconnectInsufficientState) *)
-              Some (set_pc (set_closed (emit s (FDisconnect code_disc_insufficient)) true false) SFailed)
+              Some (set_pc (set_closed (set_cw (emits s (cw s ++ [FDisconnect code_disc_insufficient])) []) true false) SFailed)
           | VServer => Some (set_pc s SFailed)      (* error returned to the caller, no frame *)
           end
       | _ => None
@@ -426,7 +442,7 @@ Definition step (c : cfg) (s : st) (l : label) : option st :=
               if is_server c then None else
               match ch s with
               | Reserved => None
-              | Sub _ _ => Some (set_up (set_ch (set_pending s n) NoCh (g_pos s)) (UHub UInsuff))
+              | Sub _ _ => Some (set_up (set_ch (set_cw (set_pending s n) []) NoCh (g_pos s)) (UHub UInsuff))
               | NoCh => Some (set_up (set_pending s n) (UOut UInsuff))
               end
           end
@@ -436,7 +452,7 @@ Definition step (c : cfg) (s : st) (l : label) : option st :=
           if closed s || negb (sub_finished s) then None else
           match ch s with
           | Reserved => None
-          | Sub _ _ => Some (set_up (set_ch s NoCh (g_pos s)) (UHub k))
+          | Sub _ _ => Some (set_up (set_ch (set_cw s []) NoCh (g_pos s)) (UHub k))   (* delWriter discards the batch *)
           | NoCh => Some (set_up s (UOut k))
           end
       end
@@ -456,11 +472,11 @@ Definition step (c : cfg) (s : st) (l : label) : option st :=
       | S n =>
           if negb (is_server c) then None else
           if closed s then Some (set_pending s n)
-          else Some (set_closed (emit (set_pending s n) (FDisconnect code_disc_insufficient)) true true)
+          else Some (set_closed (set_cw (emits (set_pending s n) (cw s ++ [FDisconnect code_disc_insufficient])) []) true true)
       end
   | LClose =>
       if closed s || negb (sub_quiet s) then None
-      else Some (set_closed (emit s (FDisconnect code_disc_other)) true true)
+      else Some (set_closed (set_cw (emits s (cw s ++ [FDisconnect code_disc_other])) []) true true)
   | LCloseCleanup =>
       if cleanup s && dl_idle s && up_idle s
       then Some (set_closed (set_hub (set_ch s NoCh (g_pos s)) false) true false)
